@@ -53,6 +53,11 @@ def run(P, rep, tier):
     rep.attempt(c03.r2_mode_dispatch, P, rep, ctx)
     # ... and it is found again: file discovery by record name returns every container of the record (rule ids C03.R3)
     rep.attempt(c03.r3_name_language, P, rep, ctx)
+    # an interrupted (torn / unfilled) newest container must make the open fail or show up as uncommitted -- never be
+    # dropped silently: every given file is loaded and checked (coverage rule of C04.R2)
+    from . import c04
+
+    rep.attempt(c04.r2_open_coverage, P, rep, ctx)
     rep.floor("C11.R2", 12)
     rep.floor("C02.R4", 11)
 
